@@ -195,6 +195,9 @@ def scenes3d(
         est.append(e)
     for e in est:
         e.pop("of", None)
+    if est and not ties and draw(st.integers(0, 3)) == 0:
+        # a detector without scores / a rejected hypothesis: confidence exactly 0.0 (still the unique lowest of the frame)
+        est[draw(st.integers(0, len(est) - 1))]["score"] = 0.0
     frame = draw(st.sampled_from(["base_link", "map"])) if allow_map else "base_link"
     d = {"frame": frame, "ego": draw(ego_poses()) if frame == "map" or mixed_frames else [0.0, 0.0, 0.0], "targets": targets, "gt": gt, "est": est}
     if mixed_frames:
